@@ -225,6 +225,19 @@ func (e *Environment) RemoveScope() error {
 	return fmt.Errorf("attempt to RemoveScope when no scopes are present")
 }
 
+// DeclareLocal binds a variable, by name, in the innermost scope.
+//
+// This is what a function-parameter, a `local` declaration, and the variables
+// of a foreach-loop need: a new binding which lives as long as the scope,
+// and which hides - rather than overwrites - a variable of the same name in
+// an enclosing scope.
+func (e *Environment) DeclareLocal(name string, val object.Object) object.Object {
+	if len(e.local) > 0 {
+		e.local[len(e.local)-1][name] = val
+	}
+	return val
+}
+
 // SetLocal stores the value of a variable, by name, but only for the local scope.
 func (e *Environment) SetLocal(name string, val object.Object) object.Object {
 
